@@ -372,6 +372,20 @@ class Func:
                 and not any(isinstance(n, ast.Name) and n.id == target.id for n in ast.walk(value.right)):
             self._add_def(node, target.id, 'aug', value.right, (), value.op)
             return
+        # x = x + a + b   (left-associated chain of additions starting at x)  is  x += a + b
+        if isinstance(target, ast.Name) and kind == 'assign' and isinstance(value, ast.BinOp) and isinstance(value.op, ast.Add):
+            chain, cur = [], value
+            while isinstance(cur, ast.BinOp) and isinstance(cur.op, ast.Add):
+                chain.append(cur.right)
+                cur = cur.left
+            if isinstance(cur, ast.Name) and cur.id == target.id and len(chain) >= 2 and \
+                    not any(isinstance(n, ast.Name) and n.id == target.id for r in chain for n in ast.walk(r)):
+                rest = chain[-1]
+                for r in reversed(chain[:-1]):
+                    rest = ast.copy_location(ast.BinOp(rest, ast.Add(), r), value)
+                ast.fix_missing_locations(rest)
+                self._add_def(node, target.id, 'aug', rest, (), ast.Add())
+                return
         if isinstance(target, (ast.Name, ast.Tuple, ast.List, ast.Starred)):
             for nm, path, _ in target_names(target):
                 self._add_def(node, nm, kind, value, path)
